@@ -13,6 +13,7 @@ import (
 	"time"
 
 	"github.com/spikeekips/mitum/base"
+	"github.com/spikeekips/mitum/isaac"
 	isaacstates "github.com/spikeekips/mitum/isaac/states"
 	"verifharness/c04/bbrig"
 	"verifharness/vlib"
@@ -58,6 +59,15 @@ type caseMon struct {
 	live     map[uintptr]bool
 	vanished map[uintptr]int // record -> cleanups at the time it was seen to have left the map
 	putCount map[uintptr]int // record -> pool puts since it was last seen live
+
+	// per stage point (key): releases since a record for it could last be
+	// created legitimately; keys whose record was seen to leave the map
+	exact       atomic.Bool
+	keyReleases map[string]int // key -> records of that stage point handed to the pool
+	keyOpens    map[string]int // key -> times a record for it came to life (or could have) through a ballot the gate admits
+	prevKeys    map[string]bool
+	releasedKey map[string]base.StagePoint // non suffrage-confirm keys only
+	liveKeySP   map[string]base.StagePoint
 }
 
 func (m *caseMon) trail() []string {
@@ -87,7 +97,7 @@ func (m *caseMon) violation(sig, what string, extra map[string]any) {
 		w[k] = v
 	}
 	m.r.Violation(sig, what, w)
-	if strings.HasPrefix(sig, "release:") || strings.HasPrefix(sig, "structure:") || strings.HasPrefix(sig, "cleanup:") {
+	if strings.HasPrefix(sig, "release:") || strings.HasPrefix(sig, "structure:") || strings.HasPrefix(sig, "cleanup:") || strings.HasPrefix(sig, "released:") {
 		// the record pool is process-global: a record released while live (or
 		// twice) ends up in later boxes too; nothing after this is a fair
 		// observation of the property any more
@@ -124,6 +134,9 @@ func (m *caseMon) onPut(ptr uintptr, sp base.StagePoint, isSC bool) {
 	_, known := m.known[ptr]
 	m.putCount[ptr]++
 	delete(m.vanished, ptr)
+	if !sp.IsZero() {
+		m.keyReleases[bbrig.SPKey(sp, isSC)]++
+	}
 	m.mu.Unlock()
 	if !known {
 		r.Count("pool_puts_of_records_never_sampled", 1)
@@ -216,6 +229,22 @@ func (m *caseMon) remember(recs []isaacstates.VerifRecord) {
 		}
 	}
 	m.live = now
+	nowKeys := map[string]bool{}
+	for _, rec := range recs {
+		nowKeys[rec.Key] = true
+		delete(m.releasedKey, rec.Key)
+	}
+	for k, sp := range m.liveKeySP {
+		if !nowKeys[k] && !strings.HasPrefix(k, "sf-") {
+			m.releasedKey[k] = sp
+		}
+	}
+	m.liveKeySP = map[string]base.StagePoint{}
+	for _, rec := range recs {
+		if rec.Key == bbrig.SPKey(rec.StagePoint, rec.IsSuffrageConfirm) {
+			m.liveKeySP[rec.Key] = rec.StagePoint
+		}
+	}
 	for _, rec := range recs {
 		m.known[rec.Ptr] = rec.Key
 		if strings.HasPrefix(rec.Key, "sf-") {
@@ -347,6 +376,33 @@ func (m *caseMon) sample(cleaned, exact bool) {
 		}
 	}
 
+	// a released stage point the box has moved past answers "not found",
+	// after every step
+	if exact {
+		m.mu.Lock()
+		rel := map[string]base.StagePoint{}
+		for k, sp := range m.releasedKey {
+			rel[k] = sp
+		}
+		m.mu.Unlock()
+		now := box.LastPoint()
+		for k, sp := range rel {
+			if now.IsZero() || now.Before(sp, false) {
+				continue // the point could be opened again by a new ballot
+			}
+			r.Count("released_point_lookups", 1)
+			if got := box.Voted(sp, all); len(got) > 0 {
+				m.violation("released:Voted-answers-for-released-point", fmt.Sprintf("Voted(%s) returns %d facts although the record of %q was released and the last point is %s", sp, len(got), k, now.StagePoint), nil)
+				return
+			}
+			if _, found, _ := box.MissingNodes(sp); found {
+				m.violation("released:MissingNodes-finds-released-point", fmt.Sprintf("MissingNodes(%s) reports found although the record of %q was released and the last point is %s", sp, k, now.StagePoint),
+					map[string]any{"live_records": recView(box.VerifRecords())})
+				return
+			}
+		}
+	}
+
 	// released (at least) once: a record that left the map in an earlier
 	// cleanup is handed to the pool by the next one
 	if cleaned && exact {
@@ -454,16 +510,19 @@ func (m *caseMon) judge(es []bbrig.Emission) int {
 			k := string(sf.HashBytes())
 			_, p := accP[k]
 			_, s := accS[k]
-			switch {
-			case p:
-				inP++
-			case s:
-				inS++
-			default:
-				f := sf.Fact().(base.BallotFact)
+			f := sf.Fact().(base.BallotFact)
+			if !p && !s {
 				m.violation("isolation:voteproof-holds-fact-not-accepted-for-its-point",
 					fmt.Sprintf("voteproof for %s holds a sign fact of %s (fact point %s) that was not accepted for that point", vp.Point(), sf.Node(), f.Point()), nil)
 				return counted
+			}
+			// NOTE a suffrage-confirm fact and an INIT fact of the same point,
+			// block, proposal and expels have the same hash (and so the same
+			// signature bytes); the kind is told by the fact's type
+			if isaac.IsSuffrageConfirmBallotFact(f) {
+				inS++
+			} else {
+				inP++
 			}
 		}
 		if inP > 0 && inS > 0 {
@@ -513,6 +572,7 @@ func build(r *vlib.Run, phase, idx int) built {
 		Stuck:     rng.Intn(3) == 0,
 		SetLast:   rng.Intn(4) == 0,
 		Missing:   true,
+		Stale:     true,
 	}
 	g := bbrig.NewGen(w, rng, o)
 	steps := g.Flow()
@@ -532,7 +592,8 @@ func scriptHash(steps []bbrig.Step) string {
 func newMon(r *vlib.Run, b built) *caseMon {
 	d := bbrig.NewDriver(b.w, bbrig.DriverOpts{Interval: time.Millisecond, CountAfter: time.Millisecond, Start: true})
 	m := &caseMon{r: r, d: d, cp: b.cp, steps: b.steps, known: map[uintptr]string{}, scSeen: map[string]bool{},
-		live: map[uintptr]bool{}, vanished: map[uintptr]int{}, putCount: map[uintptr]int{}}
+		live: map[uintptr]bool{}, vanished: map[uintptr]int{}, putCount: map[uintptr]int{},
+		liveKeySP: map[string]base.StagePoint{}, keyReleases: map[string]int{}, keyOpens: map[string]int{}, prevKeys: map[string]bool{}, releasedKey: map[string]base.StagePoint{}}
 	current.Store(m)
 	return m
 }
@@ -565,6 +626,7 @@ func runSingle(r *vlib.Run, b built) (cleanups int) {
 	m := newMon(r, b)
 	defer m.finish()
 	m.cp.Phase = "single"
+	m.exact.Store(true)
 	r.WithWatchdog(10*time.Minute, fmt.Sprintf("single case %d", b.cp.Index), func() {
 		m.calibrate()
 		for i := range m.steps {
@@ -576,6 +638,12 @@ func runSingle(r *vlib.Run, b built) (cleanups int) {
 			st := &m.steps[i]
 			m.mark()
 			lastBefore := m.d.Box.LastPoint()
+			isVote := st.Op == "vote" || st.Op == "signfact"
+			wasLive := isVote && m.prevKeys[bbrig.SPKey(st.SP, st.IsSC)]
+			admitted := isVote && (lastBefore.IsZero() || lastBefore.Before(st.SP, st.IsSC))
+			if isVote && !lastBefore.IsZero() && !lastBefore.Before(st.SP, st.IsSC) {
+				r.Count("stale_ballots_for_passed_points", 1)
+			}
 			r.Guard("ballotbox:"+st.Op, map[string]any{"case": m.cp, "step": st.Desc}, func() {
 				_ = m.d.Do(0, st)
 			})
@@ -584,6 +652,37 @@ func runSingle(r *vlib.Run, b built) (cleanups int) {
 			m.judge(m.d.Drain())
 			if m.aborted.Load() {
 				continue
+			}
+			// no record may come to life for a stage point the box had already
+			// moved past (isaac.LastPoint.Before is the box's own gate) - after
+			// every step
+			{
+				lastAfter := m.d.Box.LastPoint()
+				recs := m.d.Box.VerifRecords()
+				for _, rec := range recs {
+					if m.prevKeys[rec.Key] || rec.StagePoint.IsZero() {
+						continue
+					}
+					r.Count("new_records_checked", 1)
+					if admitted && rec.Key == bbrig.SPKey(st.SP, st.IsSC) {
+						m.mu.Lock()
+						m.keyOpens[rec.Key]++
+						m.mu.Unlock()
+						admitted = false
+					}
+					if lastBefore.IsZero() || lastBefore.Before(rec.StagePoint, rec.IsSuffrageConfirm) ||
+						lastAfter.Before(rec.StagePoint, rec.IsSuffrageConfirm) {
+						continue
+					}
+					m.violation("released:record-created-for-passed-stage-point:"+keyClass(rec.Key),
+						fmt.Sprintf("after step %q a record for %s (key %q) is live although the last point was %s (majority=%v) before the step: the box had moved past that stage point",
+							st.Desc, rec.StagePoint, rec.Key, lastBefore.StagePoint, lastBefore.IsMajority()),
+						map[string]any{"live_records": recView(recs)})
+					break
+				}
+				if m.aborted.Load() {
+					continue
+				}
 			}
 			// the last point moves only in countVoterecords (which then runs
 			// clean()) or in a SetLastPoint step (which does not)
@@ -604,6 +703,29 @@ func runSingle(r *vlib.Run, b built) (cleanups int) {
 				m.cleanups++
 				m.mu.Unlock()
 				m.sample(true, true)
+			}
+			m.prevKeys = map[string]bool{}
+			for _, rec := range m.d.Box.VerifRecords() {
+				m.prevKeys[rec.Key] = true
+			}
+			// released at most once per lifetime: a stage point's records reach
+			// the pool no more often than a record for it came to life
+			m.mu.Lock()
+			if admitted && !m.prevKeys[bbrig.SPKey(st.SP, st.IsSC)] && !wasLive {
+				// the ballot was admitted, its record is not there any more (or
+				// never seen): it may have lived and left within this step
+				m.keyOpens[bbrig.SPKey(st.SP, st.IsSC)]++
+			}
+			var over string
+			for k, n := range m.keyReleases {
+				if n > m.keyOpens[k] {
+					over = fmt.Sprintf("records of stage point key %q were handed to the pool %d times, but a record for it came to life (through a ballot LastPoint.Before admits) only %d times", k, n, m.keyOpens[k])
+					m.keyReleases[k] = m.keyOpens[k] // report once
+				}
+			}
+			m.mu.Unlock()
+			if over != "" && !m.aborted.Load() {
+				m.violation("release:stage-point-released-more-often-than-opened", over, nil)
 			}
 		}
 	})
